@@ -150,7 +150,9 @@ def generate_driver(facts):
             if m.get("excluded"):
                 continue
             if m["recv"]:
-                if m["recv"] != s["recv"]:
+                # the method set of *T includes the methods declared on T: a value receiver is driven too
+                # (calling it copies the whole struct, guarded fields and mutex included)
+                if m["recv"].lstrip("*") != (s["recv"] or "").lstrip("*"):
                     continue
                 call = "x." + m["name"]
             else:
